@@ -140,6 +140,7 @@ def native(scenario, shape, values=None, seed=None, profile='debug', timeout=60)
 # ----------------------------------------------------------------------------- symbolic workers
 _PROG = None
 _MODELS = None
+CAPS = {}
 
 
 def _load():
@@ -159,6 +160,8 @@ def explore_chunk(task):
     jid, scenario, shape, prefixes, max_paths, max_seconds = task
     prog, models = _load()
     from mirsym.explore import explore
+    import mirsym.ctx as _c
+    _c.CONCRETIZE_CAP = CAPS.get(scenario, 300)
     try:
         r = explore(prog, 'harness::' + scenario_path(scenario), shape, max_paths=max_paths, max_seconds=max_seconds, models=models,
                     initial_work=prefixes, return_rest=True)
@@ -335,6 +338,8 @@ def run_check(prop, spec, tier, seed):
     rnd = random.Random(seed)
     jobs = []
     for sc in spec['scenarios']:
+        if 'concretize_cap' in sc:
+            CAPS[sc['name']] = sc['concretize_cap']
         shapes = sc['shapes'][tier] if tier in sc['shapes'] else sc['shapes']['quick']
         shapes = list(shapes)
         rnd.shuffle(shapes)
